@@ -5,15 +5,20 @@ Import ListNotations.
 From ZI Require Import Lib.Util Model.Decl Model.DeclKernelPrims Proofs.Decl Gen.DeclKernel.
 
 (* ------------------------------------------------------------------ equality tests *)
+Lemma lnat_eqb_eq a b : lnat_eqb a b = true <-> a = b.
+Proof. apply list_eqb_eq. apply Nat.eqb_eq. Qed.
+
 Lemma node_eqb_eq a b : node_eqb a b = true <-> a = b.
 Proof.
-  destruct a, b; cbn; try (split; congruence); rewrite Nat.eqb_eq; split; congruence.
+  destruct a, b; cbn; try (split; congruence);
+    try (rewrite Nat.eqb_eq; split; congruence); rewrite lnat_eqb_eq; split; congruence.
 Qed.
 Lemma node_eqb_refl a : node_eqb a a = true.
 Proof. apply node_eqb_eq; auto. Qed.
 Lemma kclsref_eqb_eq a b : kclsref_eqb a b = true <-> a = b.
 Proof.
-  destruct a, b; cbn; try (split; congruence). rewrite Nat.eqb_eq; split; congruence.
+  destruct a, b; cbn; try (split; congruence);
+    try (rewrite Nat.eqb_eq; split; congruence); rewrite lnat_eqb_eq; split; congruence.
 Qed.
 Lemma lnode_eqb_eq a b : lnode_eqb a b = true <-> a = b.
 Proof. apply list_eqb_eq. apply node_eqb_eq. Qed.
@@ -178,6 +183,14 @@ Proof.
   rewrite isOrExtends_embed. auto.
 Qed.
 
+Lemma generated_add_interfaces_to_cls_meta g s l m :
+  gen_add_interfaces_to_cls g s (map NI l) (meta_ref m) =
+  map NI (keepnew (closure g (match m with Some x => x | None => [] end)) l) ++ [p_implementedBy (meta_ref m)].
+Proof.
+  unfold gen_add_interfaces_to_cls. f_equal. rewrite filter_map. f_equal. unfold keepnew.
+  apply filter_ext. intros a. destruct m; reflexivity.
+Qed.
+
 (* ------------------------------------------------------------------ Provides.changed *)
 Lemma generated_Provides_changed_eq g s self o :
   gen_Provides_changed g s self o =
@@ -287,7 +300,7 @@ Section Evict.
                      mkK (kclasses acc) (kinsts acc) (filter (fun e => negb (dep_entry e)) ((L1 ++ [(k, v)]) ++ L2)) (kexc acc)).
       { intros Hd. apply IH; auto. rewrite filter_app. cbn [filter]. rewrite Hd. cbn [negb].
         rewrite <- app_assoc. auto. }
-      destruct kc as [| |d]; try (apply Keep; reflexivity).
+      destruct kc as [| |d|ml]; try (apply Keep; reflexivity).
       cbn [fst k].
       destruct (DEP d) eqn:Ed; [|apply Keep; unfold dep_entry; cbn; auto].
       rewrite generated_Provides_changed_eq. cbn [p_origin_is fst].
@@ -323,7 +336,7 @@ Definition kst (kcs : list kcls) (st : state) (x : option nat) : kstate :=
 Lemma set_bases_kst g st x kcs c k bases :
   Forall2 bases_match kcs (classes st) -> nth_error kcs c = Some k -> NoDup (map fst (cache st)) ->
   p_set_bases gen_Provides_changed g (kst kcs st x) (NC c) bases =
-  mkK (upd kcs c (mkKC (kc_pybases k) (kc_declared k) (kc_inherit k) bases (kc_provides k)))
+  mkK (upd kcs c (mkKC (kc_pybases k) (kc_declared k) (kc_inherit k) bases (kc_provides k) (kc_meta k)))
       (map embed_inst (insts st)) (map embed_entry (evict true (classes st) c (cache st))) x.
 Proof.
   intros HM Ek ND. unfold p_set_bases, kst. cbn [kclasses kinsts kcache kexc]. rewrite Ek.
@@ -419,10 +432,11 @@ Proof.
     rewrite E1. clear E1. rewrite dd_nil, kdedup_map_NI in *.
     assert (Hlen : c < length (map embed_cls (classes st))) by (rewrite map_length; eapply nth_error_lt; eauto).
     unfold p_set_declared, kset. cbn [embed_exc kclasses kinsts kcache kexc].
-    rewrite nth_error_embed_cls, E. cbn [option_map embed_cls kc_pybases kc_inherit kc_bases kc_provides].
+    rewrite nth_error_embed_cls, E. cbn [option_map embed_cls kc_pybases kc_inherit kc_bases kc_provides kc_meta].
     unfold p_inherit_is_set, p_inherit_pybases, kget. cbn [kclasses]. rewrite nth_error_upd_eq by auto.
     cbn [kc_inherit kc_pybases]. rewrite negb_involutive.
-    set (k1 := mkKC (c_bases r) (map NI (dedup L)) (c_inherit r) (spec_bases r) (map NI (c_cprov r) ++ [NT])).
+    set (k1 := mkKC (c_bases r) (map NI (dedup L)) (c_inherit r) (spec_bases r)
+                    (map NI (c_cprov r) ++ [p_implementedBy (meta_ref (c_meta r))]) (c_meta r)).
     assert (HB : exists seen2,
       (if c_inherit r
        then let '(s, new_declared, seen, bases) :=
@@ -512,12 +526,12 @@ Proof.
     unfold p_set_declared, p_set_inherit_none, kset. cbn [embed_exc kclasses kinsts kcache kexc].
     rewrite nth_error_embed_cls, E. cbn [option_map kclasses]. rewrite nth_error_upd_eq by auto.
     cbn [kclasses kinsts kcache kexc]. rewrite upd_upd.
-    cbn [embed_cls kc_pybases kc_declared kc_inherit kc_bases kc_provides].
+    cbn [embed_cls kc_pybases kc_declared kc_inherit kc_bases kc_provides kc_meta].
     match goal with |- context [p_set_bases _ _ (mkK (upd _ c ?k) _ _ _) _ _] => set (k2 := k) end.
     fold (kst (upd (map embed_cls (classes st)) c k2) st x).
     rewrite (set_bases_kst g st x _ c k2); auto.
     + rewrite upd_upd.
-      replace (mkK _ _ _ x) with (embed_exc (set_class true st c (mkC (c_bases r) [] false (c_cprov r))) x).
+      replace (mkK _ _ _ x) with (embed_exc (set_class true st c (mkC (c_bases r) [] false (c_cprov r) (c_meta r))) x).
       * change (@nil node) with (map NI []). apply generated_classImplements_ordered_eq.
         cbn [set_class cache evict]. apply NoDup_map_fst_filter; auto.
       * unfold set_class, embed_exc. cbn [classes insts cache]. f_equal. rewrite map_upd. f_equal.
@@ -617,12 +631,36 @@ Proof.
     unfold p_set_provides. cbn [embed_exc kinsts kclasses kcache kexc snd]. rewrite nth_error_map, His, E.
     cbn [option_map embed_inst ki_cls ki_live]. unfold embed_exc. cbn [classes insts cache].
     rewrite ?His, map_upd. cbn [embed_inst i_cls i_live i_prov option_map]. rewrite Hl. reflexivity.
-  - cbn [p_getattr_class p_is_none_ref negb andb p_getattr_class_of_class kclsref_eqb p_isinstance_type
-            p_issubclass_type p_normalizeargs].
-    cbn [directly]. unfold direct_cls, p_set_provides, p_new_class_provides, kset.
-    cbn [embed_exc kclasses kinsts kcache kexc snd p_implementedBy]. rewrite nth_error_map.
-    destruct (nth_error (classes st) c) as [r|]; cbn [option_map]; auto.
-    unfold embed_exc. cbn [classes insts cache]. rewrite map_upd. reflexivity.
+  - cbn [directly]. unfold direct_cls.
+    assert (Hc : p_getattr_class (embed_exc st x) (TCls c) =
+                 match nth_error (classes st) c with Some r => meta_ref (c_meta r) | None => RType end).
+    { cbn. rewrite nth_error_map. destruct (nth_error (classes st) c); auto. }
+    rewrite Hc. clear Hc.
+    assert (Hset : forall ref,
+      p_set_provides (embed_exc st x) (TCls c)
+        (p_new_class_provides gen_add_interfaces_to_cls g (embed_exc st x) (TCls c) ref (map NI l)) =
+      match nth_error (classes st) c with
+      | Some r => mkK (upd (map embed_cls (classes st)) c
+                           (mkKC (c_bases r) (map NI (c_decl r)) (c_inherit r) (spec_bases r)
+                                 (gen_add_interfaces_to_cls g (embed_exc st x) (map NI l) ref) (c_meta r)))
+                      (map embed_inst (insts st)) (map embed_entry (cache st)) x
+      | None => embed_exc st x
+      end).
+    { intros ref. unfold p_set_provides, p_new_class_provides, kset. cbn [embed_exc kclasses kinsts kcache kexc snd].
+      rewrite nth_error_map. destruct (nth_error (classes st) c); auto. }
+    destruct (nth_error (classes st) c) as [r|] eqn:E.
+    + assert (Hres : mkK (upd (map embed_cls (classes st)) c
+                           (mkKC (c_bases r) (map NI (c_decl r)) (c_inherit r) (spec_bases r)
+                                 (gen_add_interfaces_to_cls g (embed_exc st x) (map NI l) (meta_ref (c_meta r))) (c_meta r)))
+                      (map embed_inst (insts st)) (map embed_entry (cache st)) x =
+                     embed_exc (mkS (upd (classes st) c (mkC (c_bases r) (c_decl r) (c_inherit r)
+                                      (keepnew (closure g (meta_direct r)) l) (c_meta r))) (insts st) (cache st)) x).
+      { unfold embed_exc. cbn [classes insts cache]. rewrite map_upd. f_equal. f_equal.
+        rewrite generated_add_interfaces_to_cls_meta. reflexivity. }
+      destruct (c_meta r) as [ml|] eqn:Em; cbn [meta_ref p_is_none_ref negb andb p_getattr_class_of_class
+          kclsref_eqb p_isinstance_type p_issubclass_type p_normalizeargs]; rewrite Hset, <- Hres; reflexivity.
+    + cbn [p_is_none_ref negb andb p_getattr_class_of_class kclsref_eqb p_isinstance_type
+           p_issubclass_type p_normalizeargs]. rewrite Hset. reflexivity.
 Qed.
 
 Lemma generated_alsoProvides_eq g st x t l :
@@ -653,8 +691,9 @@ Proof.
     destruct (i_prov r) as [k|]; cbn [option_map]; auto.
     rewrite !existsb_app, existsb_map. cbn [existsb]. rewrite orb_false_r, Hc. f_equal.
   - rewrite nth_error_map. destruct (nth_error (classes st) c) as [r|]; cbn [option_map]; auto.
-    cbn [embed_cls kc_provides]. rewrite existsb_app, existsb_map. cbn [existsb kflat_f mem_nat].
-    rewrite !orb_false_r. apply existsb_ext_in. intros y _. reflexivity.
+    cbn [embed_cls kc_provides]. rewrite !existsb_app, existsb_map. cbn [existsb]. rewrite orb_false_r.
+    f_equal. unfold meta_direct. destruct (c_meta r) as [ml|]; cbn [meta_ref p_implementedBy kflat_f mem_nat existsb]; auto.
+    symmetry. apply existsb_ext_mem.
 Qed.
 
 Lemma generated_noLongerProvides_eq g st t i :
@@ -761,4 +800,26 @@ Proof.
   intros ND Hd TL. apply generated_step_eq; auto.
   - unfold is_declaration. destruct (decl_class o), (decl_target o); auto. destruct Hd; congruence.
   - unfold op_target_live. destruct (decl_target o); auto.
+Qed.
+
+(* ------------------------------------------------------------------ implementedBy: the ClassProvides of a new class
+   names the class's METACLASS (getattr(cls, '__class__', type(cls))): installing it on a class
+   whose class object has no declaration yet leaves the embedded state as it is — what the
+   class object provides does not depend on whether implementedBy(cls) was computed. *)
+Lemma upd_same {A} (l : list A) n x : nth_error l n = Some x -> upd l n x = l.
+Proof. revert n; induction l as [|h t IH]; intros [|n] H; cbn in *; try discriminate; [inversion H; auto|f_equal; auto]. Qed.
+
+Lemma generated_implementedBy_class_provides_eq g st x c r :
+  nth_error (classes st) c = Some r -> c_cprov r = [] ->
+  gen_implementedBy_class_provides g (embed_exc st x) (TCls c) = embed_exc st x.
+Proof.
+  intros E Hp. unfold gen_implementedBy_class_provides. cbv zeta.
+  cbn [p_isinstance_type p_has_own_provides negb andb].
+  assert (Hc : p_getattr_class (embed_exc st x) (TCls c) = meta_ref (c_meta r)).
+  { cbn. rewrite nth_error_map, E. auto. }
+  rewrite Hc. unfold p_set_provides, p_new_class_provides, kset. cbn [embed_exc kclasses kinsts kcache kexc snd].
+  rewrite nth_error_map, E. cbn [option_map]. change (@nil node) with (map NI []).
+  fold (embed_exc st x). rewrite generated_add_interfaces_to_cls_meta.
+  unfold embed_exc. f_equal. apply upd_same. rewrite nth_error_map, E. cbn [option_map].
+  unfold embed_cls. rewrite Hp. reflexivity.
 Qed.
